@@ -202,6 +202,9 @@ def c04(ctx):
             ctx.mon("cell/%s-%s/%s/%s" % (fl, prof, p, mname), fl, prof, args, adopt=lambda sig: True)
 
     ctx.parallel([(lambda c=c: cell(c)) for c in cells], workers=6)
+    # the optional `mmap` feature is part of the feature-set clause: the file battery of C11 (length
+    # lattice, special files, block device, other user, address-space limit) in the full-feature build
+    ctx.mon("cell/asm-release/full/file-entry-points", "asm", "release", ["c11", "--files-only", "1"], adopt=lambda sig: True)
     seen = {}
     for name, obs in ctx.observations.items():
         if name.startswith("cell/") and name.endswith("/c01"):
